@@ -1,9 +1,12 @@
 import Mitx.Driver.Munkres
+import Mitx.Driver.Attempt
 open Lean
 
 def dispatch (op : String) (j : Json) : Except String Json :=
   match op with
   | "munkres" => Drv.munkres j
+  | "sched" => Drv.sched j
+  | "apply_attempt" => Drv.applyAtt j
   | _ => .error s!"unknown op {op}"
 
 def handle (line : String) : String :=
